@@ -258,6 +258,34 @@ def run(ctx):
         ts = [geoms.geom_in_box(rng, "BoundingBox", *b) for b in bt]
         ctx.case(("large", "mixed"), {"source": ss, "target": ts, "tb": 0.01, "fb": 100.0})
         judge(ctx, ss, ts, 0.01, 100.0)
+    run_long_lists(ctx)
+
+
+def run_long_lists(ctx):
+    """A whole night of detections against a few annotations: several hundred geometries of mixed types in one
+    call (coverage, pairing rule and reported affinities are judged; optimality only up to 7 x 7)."""
+    rng = ctx.rng
+    for rep in range(ctx.scale(2, 4)):
+        n_far, n_near, m = rng.choice([260, 300, 520]), rng.randint(20, 40), rng.randint(20, 40)
+        base = geoms.random_box(rng, "dyadic")
+        w = base[1] - base[0]
+        TYPES_ = ["BoundingBox", "TimeInterval", "Polygon", "TimeStamp", "Point", "LineString"]
+        def gen(i, far):
+            t0 = base[0] + (i % 7) * w * 0.6 + (1000.0 + 3 * w * i if far else 0.0)
+            return geoms.geom_in_box(rng, rng.choice(TYPES_), t0, t0 + w, base[2], base[3])
+        # hundreds of detections far from every annotation come first in the list; the ones that matter come last
+        ss, ts = [gen(i, True) for i in range(n_far)] + [gen(i, False) for i in range(n_near)], [gen(i, False) for i in range(m)]
+        n = len(ss)
+        if rep % 2:
+            ss, ts = ts, ss
+            n, m = m, n
+        ctx.case(("long_lists", "n>256" if n > 256 else "m>256"), {"source": ss, "target": ts, "tb": 0.01, "fb": 100.0})
+        from soundevent.evaluation import match as M
+
+        try:
+            list(M.match_geometries([geoms.build(s_) for s_ in ss], [geoms.build(t_) for t_ in ts], time_buffer=0.01, freq_buffer=100.0))
+        except Exception as e:
+            ctx.violate_exc("raises", f"raises:{type(e).__name__}", e, spec={"kind": "match", "source": ss[:3], "target": ts[:3], "n": n, "m": m})
 
 
 def replay(ctx, w):
